@@ -277,11 +277,11 @@ def merge(agg, r):
         agg["samples"].append({"broker": b, **r["sample"]})
     for v in r["violations"]:
         pb["violations"] += 1
-        if len(agg["violations"]) < 400:
+        sig = v["v"]["signature"]
+        cnt = agg.setdefault("sig_counts", {})
+        cnt[sig] = cnt.get(sig, 0) + 1
+        if cnt[sig] <= 25:  # per signature, so that a rare signature can never be crowded out by a frequent one
             agg["violations"].append(v)
-        else:
-            agg.setdefault("violations_dropped", 0)
-            agg["violations_dropped"] += 1
 
 
 def sig_slug(sig: str) -> str:
@@ -293,10 +293,11 @@ def finish(prop, pid, tier, args, agg, errors, wall, planned, cut) -> int:
     known = {f["signature"]: f for f in findings if f.get("status") == "known"}
     known_hits: dict[str, int] = {}
     unknown: dict[str, list] = {}
+    counts = agg.get("sig_counts", {})
     for v in agg["violations"]:
         sig = v["v"]["signature"]
         if sig in known:
-            known_hits[sig] = known_hits.get(sig, 0) + 1
+            known_hits[sig] = counts.get(sig, 0)
         else:
             unknown.setdefault(sig, []).append(v)
     rc = 0
@@ -317,9 +318,9 @@ def finish(prop, pid, tier, args, agg, errors, wall, planned, cut) -> int:
         path = os.path.join(ROOT, "replays", f"{pid}-{sig_slug(sig)}-{sc2['seed']}.json")
         with open(path, "w") as f:
             json.dump({"property": pid, "signature": sig, "violation": vv[0], "digest": out.get("digest"),
-                       "occurrences_this_run": len(vs), "scenario": sc2}, f, indent=1, default=str)
+                       "occurrences_this_run": counts.get(sig, len(vs)), "scenario": sc2}, f, indent=1, default=str)
         print(f"VIOLATION property={pid} replay={path}", flush=True)
-        print(f"  signature={sig} kind={vv[0]['kind']} occurrences={len(vs)}", flush=True)
+        print(f"  signature={sig} kind={vv[0]['kind']} occurrences={counts.get(sig, len(vs))}", flush=True)
         replay_paths.append(path)
         rc = 1
     for sig, f in known.items():
@@ -337,7 +338,7 @@ def finish(prop, pid, tier, args, agg, errors, wall, planned, cut) -> int:
     if not args.no_evidence:
         write_evidence(prop, pid, tier, args, agg, wall, planned, cut, known_hits, unknown, errors)
     print(f"{pid} {tier}: tasks={agg['tasks']}/{planned} runs={agg['evals']} distinct_nontrivial={len(agg['digests_nt'])} "
-          f"steps={agg['steps']} vt={agg['vt_us'] / 1e6:.0f}s wall={wall:.1f}s violations={len(agg['violations'])} "
+          f"steps={agg['steps']} vt={agg['vt_us'] / 1e6:.0f}s wall={wall:.1f}s violations={sum(counts.values())} "
           f"known={sum(known_hits.values())} rc={rc}", flush=True)
     return rc
 
@@ -367,7 +368,7 @@ def write_evidence(prop, pid, tier, args, agg, wall, planned, cut, known_hits, u
         "components_real": getattr(prop, "REAL", COMMON_REAL),
         "components_stubbed": getattr(prop, "STUB", COMMON_STUB),
         "known_findings_observed": known_hits,
-        "unknown_violation_signatures": {k: len(v) for k, v in unknown.items()},
+        "unknown_violation_signatures": {k: agg.get("sig_counts", {}).get(k, len(v)) for k, v in unknown.items()},
         "harness_errors": len(errors),
         "exhaustive": False,
     }
@@ -379,7 +380,7 @@ def write_evidence(prop, pid, tier, args, agg, wall, planned, cut, known_hits, u
         "coverage": cov,
         "assumptions": getattr(prop, "ASSUMPTIONS", []) + COMMON_ASSUMPTIONS,
         "wall_s": round(wall, 2),
-        "violations": len(agg["violations"]) - sum(known_hits.values()),
+        "violations": sum(agg.get("sig_counts", {}).values()) - sum(known_hits.values()),
     }
     os.makedirs(os.path.join(ROOT, "evidence"), exist_ok=True)
     p = os.path.join(ROOT, "evidence", f"{pid}.json")
